@@ -282,19 +282,19 @@ MIXED_CASES = [
 MIXED_CUSTOM = {':--both': '.hit, .other'}
 
 
-def mixed_ns_ok(ci: int, mi: int) -> bool:
+def mixed_ns_ok(ci: int) -> bool:
     """
     pre: 0 <= ci < len(MIXED_CASES)
-    pre: 0 <= mi < len(MIXED_MAPS)
     post: _
     """
-    ci, mi = concrete(ci), concrete(mi)
+    ci = concrete(ci)
     with notrace():
         text, pred = MIXED_CASES[ci]
-        m = MIXED_MAPS[mi]
-        exp = [e.get('id') for e in MIXED_ELS if pred(e, m)]
-        c = sv.compile(text, namespaces=m, custom=MIXED_CUSTOM)
-        ok = [e.get('id') for e in c.select(MIXED)] == exp
-        ok = ok and [e.get('id') for e in MIXED_ELS if c.match(e)] == exp
-        ok = ok and [e.get('id') for e in c.filter(MIXED_ELS)] == exp
+        ok = True
+        for m in MIXED_MAPS:
+            exp = [e.get('id') for e in MIXED_ELS if pred(e, m)]
+            c = sv.compile(text, namespaces=m, custom=MIXED_CUSTOM)
+            ok = ok and [e.get('id') for e in c.select(MIXED)] == exp
+            ok = ok and [e.get('id') for e in MIXED_ELS if c.match(e)] == exp
+            ok = ok and [e.get('id') for e in c.filter(MIXED_ELS)] == exp
     return ret(ok)
